@@ -29,7 +29,9 @@ WANTED = [
         "HED_DEF_EXPAND_VALUE_EXTRA", "VALUE_INVALID"]
 ] + [("DefinitionErrors", "BAD_DEFINITION_LOCATION"),
      ("TemporalErrors", "DURATION_HAS_OTHER_TAGS"), ("TemporalErrors", "DURATION_WRONG_NUMBER_GROUPS"),
-     ("TemporalErrors", "ONSET_NO_DEF_TAG_FOUND")]
+     ("TemporalErrors", "ONSET_NO_DEF_TAG_FOUND"), ("TemporalErrors", "ONSET_TOO_MANY_DEFS"),
+     ("TemporalErrors", "ONSET_WRONG_NUMBER_GROUPS"), ("TemporalErrors", "ONSET_TAG_OUTSIDE_OF_GROUP"),
+     ("TemporalErrors", "ONSET_DEF_UNMATCHED"), ("TemporalErrors", "ONSET_PLACEHOLDER_WRONG")]
 # constants used as `actual_error=` overrides or as the names of the specification's codes
 CODES = ["PLACEHOLDER_INVALID", "DEFINITION_INVALID", "TEMPORAL_TAG_ERROR", "TAG_INVALID", "TAG_EXTENSION_INVALID",
          "TAG_REQUIRES_CHILD", "UNITS_INVALID", "VALUE_INVALID", "TAG_EXPRESSION_REPEATED", "TAG_GROUP_ERROR",
